@@ -86,6 +86,14 @@ CHECKS = {
          "instants at 50/85/90/95 % + 0..19 ms, enumerate-all batching within 100 ms) is decided per run by mon_browser (codes 70-74) "
          "over virtual durations of hours.",
          "DESIGN.md section 4 (C14/C15/C19)", "Rocq proof (handler level) + timing acceptor on implementation traces under virtual time + differential correspondence"),
+ "C20": ("Theorem C20_values (Properties_C20.v): for every program of construction, copy, assignment (incl. self-assignment), every "
+         "setter (incl. Bitmap::setData with the bitmap's own data()), comparison, reading and destruction, the model of bitmap.cpp on "
+         "an abstract heap never reads or frees a block it does not own (no fault, no double free) and prints exactly what the pure "
+         "value semantics prints; C20_record_eq: Record::operator== (conjunct list regenerated from record.cpp) is equality of name, "
+         "type and every data field, TTL and cache-flush excluded, and the private member list is covered. Tie: the same programs run "
+         "on the real classes under ASan (random and all programs of <= 2 (thorough 3) operations over two variables), on the heap "
+         "model and on the pure semantics. Partial in that the C++ object code itself is not verified.",
+         "DESIGN.md section 4 (C20)", "Rocq refinement proof (abstract heap vs pure values, separation invariant) + SrcFacts field lists + ASan-checked differential correspondence"),
  "C16": ("Theorems (Properties_C16.v, partial): shape of the initial A+AAAA query listing exactly the cached address records; every report "
          "caused by a response comes from an A/AAAA record of exactly the name with nonzero TTL not reported before; received address "
          "records are stored. Completeness of reporting and the zero-delay report are decided per run by the acceptor mon_resolver "
